@@ -26,6 +26,7 @@ import (
 	"sync"
 	"time"
 
+	"github.com/freeconf/yang/meta"
 	"github.com/freeconf/yang/val"
 
 	"yvh/core"
@@ -84,8 +85,37 @@ func c13KeyTy(s *tree.SNode) string {
 	return "KtOther"
 }
 
+// c13Terminals: the nodes below s that hold no definitions and that the flat view leaves out: anydata / anyxml
+// ("any") and actions / rpcs ("action"), in a fixed order. In the skeleton they are SkLeaf entries after the kids.
+func c13Terminals(s *tree.SNode) (names []string, kinds []string) {
+	if hd, ok := s.Def.(meta.HasDataDefinitions); ok {
+		for _, d := range hd.DataDefinitions() {
+			if _, isAny := d.(*meta.Any); isAny {
+				names, kinds = append(names, d.Ident()), append(kinds, "any")
+			}
+		}
+	}
+	if ha, ok := s.Def.(meta.HasActions); ok {
+		var as []string
+		for a := range ha.Actions() {
+			as = append(as, a)
+		}
+		sort.Strings(as)
+		for _, a := range as {
+			names, kinds = append(names, a), append(kinds, "action")
+		}
+	}
+	return
+}
+
 func c13Kids(s *tree.SNode) string {
 	t := "SNil"
+	if s.Kind != tree.KLeaf {
+		tn, _ := c13Terminals(s)
+		for i := len(tn) - 1; i >= 0; i-- {
+			t = "(SCons " + emit.App("SkLeaf", emit.Str(tn[i]), "[]", "false", "KtOther") + " " + t + ")"
+		}
+	}
 	for i := len(s.Kids) - 1; i >= 0; i-- {
 		t = "(SCons " + c13Sk(s.Kids[i]) + " " + t + ")"
 	}
@@ -391,7 +421,7 @@ func C13(ctx *core.Ctx) error {
 	}
 	var reqs []*c13Req
 	for _, w := range worlds {
-		reqs = append(reqs, c13Streams(r.Fork(uint64(7000+w.Idx)), w, budget/len(worlds), ctx.Thorough())...)
+		reqs = append(reqs, c13Streams(r.Fork(uint64(7000+w.Idx)), w, budget/nw, ctx.Thorough())...)
 	}
 	for _, rq := range reqs {
 		c13TagID(rq.Tag) // panics on an unregistered tag (programming error) before any worker starts
@@ -414,6 +444,7 @@ func C13(ctx *core.Ctx) error {
 			text = text[:200] + fmt.Sprintf("…(%d bytes)…", len(text)) + text[len(text)-100:]
 		}
 		desc := map[string]interface{}{"world": rq.W, "kind": rq.Kind, "tag": rq.Tag, "text": text, "at": rq.At,
+			"backend":       map[string]string{"": "reference store", "json": "nodeutil.ReadJSON", "reflect": "nodeutil.ReflectChild"}[rq.Impl],
 			"must_be_error": c13MustErr(rq.Tag), "outcome": rs.Class, "frame": rs.Frame, "msg": rs.Msg, "preserved": rs.Preserved, "changed": rs.Changed}
 		if rq.Kind == "match" {
 			desc["selector"], desc["base"], desc["candidate"], desc["matched"] = rq.Sel, rq.Base, rq.Cand, rs.Match
@@ -427,6 +458,8 @@ func C13(ctx *core.Ctx) error {
 		}
 		if rq.W == 0 {
 			desc["schema"] = "fixed world (c13FixedYang in harness/props/c13_worker.go)"
+		} else if w.Keys {
+			desc["schema"] = "fixed world (c13KeysYang, c13KeysData / c13KeysImplData in harness/props/c13_worker.go)"
 		} else if ctx.Only >= 0 {
 			desc["schema"] = w.Yang
 			desc["data"] = w.DataJSON
